@@ -208,6 +208,10 @@ MANIFEST = dict(
     technique='Coq proof (stack machine refines an environment-passing big-step semantics, by induction on fuel, for every expression and stack) with model/code correspondence',
     text='Theorems (coq/Props/C01.v) hold for every expression of the core fragment, every scope stack and every fuel: the transliterated evaluator (push/pop/set_entry on a scope stack) '
          'computes exactly the environment-passing semantics whose for/some/every range over the cartesian product of the domains (empty when a domain is empty), and leaves the stack as it found it. '
+         'Second sentence of the property (coq/C01/FreeNames.v, proved for every expression, fuel and pair of stacks, for the semantics and for the code): the value depends only on the bindings of the names '
+         'that occur in the expression (C01_depends_only_on_occurring_names, C01_unrelated_bindings_irrelevant), provided the function values bound to those names mention only such names in their bodies '
+         '(bodies run in the caller\'s scope: known finding dynamic-scope; C01_dynamic_scope_witness shows the proviso is needed); stated for occurring rather than free names because the code can look a bound '
+         'variable up outside when an empty domain is skipped (C01_bound_name_leak_witness, known finding empty-domain). The same law is also evaluated on the implementation\'s own answers. '
          'The model is tied to feel-evaluator by evaluating thousands of generated expressions with both and comparing values.',
     note='Trusted: Coq kernel + vm_compute, hand-written model of builders.rs/iterations.rs (correspondence-checked), FEEL text rendering of ASTs, the real parser (C06 covers it). '
          'Numbers are integers in the model; decimal arithmetic, built-ins and temporal values are other properties. Interpretive choices listed in coq/C01/Spec.v.')
